@@ -8,7 +8,7 @@ operations the backward flow walk applies to it:
   `db_index/type/basic_union.rs`)                                   → `fromVec`, `mkUnion`
 * `TypeOps::Union` (`type_ops/union_type.rs`)                        → `unionTy`
 * `TypeOps::Remove` (`type_ops/remove_type.rs`, `type_ops/mod.rs`)   → `removeApply`
-* `TypeOps::Intersect` with target `nil` (`type_ops/intersect_type.rs`) → `intersectNil`
+* `TypeOps::Intersect` with a `nil`/literal target (`type_ops/intersect_type.rs`) → `intersectTy`
 * `narrow_down_type` (`narrow/narrow_type/mod.rs`)                   → `narrowDown`
 * `remove_false_or_nil`, `narrow_false_or_nil` (`narrow_type/false_or_nil_type.rs`)
 * `narrow_type_guard` / `remove_type_guard`, `narrow_eq_condition` (`condition_flow/{mod,binary_flow}.rs`)
@@ -165,7 +165,7 @@ def ndAtom (s t : Atom) : Option Atom :=
      | .tblC sid => some (.tblC sid)
      | .table | .unknown => some (.tblC id)
      | _ => none)
-  | .boolC _ => if s.isBoolean then some .boolean else if s == .unknown then some (.boolC true) else none
+  | .boolC b => if s.isBoolean then some .boolean else if s == .unknown then some (.boolC b) else none
   | .never => none
 
 /-- `narrow_down_type(source, target, None)` with a non-union target -/
@@ -224,26 +224,33 @@ def guardFalse (t : Ty) (g : Atom) : Ty :=
   | [a] => guardFalseAtom a g
   | _ => fromVec ((t.map fun a => guardFalseAtom a g).filter fun m => !isNever m)
 
-/-- `intersect_type(source, nil)` on a non-union member -/
-def intersectNilAtom : Atom → Atom
-  | .unknown => .nil
-  | .nil => .nil
-  | _ => .never
+/-- `intersect_type(source, target)` for a non-union source and a target that is `nil` or a literal type -/
+def intersectAtom (s e : Atom) : Atom :=
+  match s, e with
+  | .never, _ => .never
+  | .unknown, _ => e
+  | .integer, .intC i => .intC i
+  | _, _ =>
+    if s == .number && e.isNumber then .number
+    else match s, e with
+    | .string, .strC k => .strC k
+    | .boolean, .boolC b => .boolC b
+    | _, _ => if s == e then s else .never
 
-/-- `TypeOps::Intersect.apply(source, nil)` -/
-def intersectNil (t : Ty) : Ty :=
+/-- `TypeOps::Intersect.apply(source, target)` with such a target -/
+def intersectTy (t : Ty) (e : Atom) : Ty :=
   match t with
-  | [a] => [intersectNilAtom a]
+  | [a] => [intersectAtom a e]
   | _ =>
-    match (t.map intersectNilAtom).filter (fun a => a != .never) with
+    match (t.map fun a => intersectAtom a e).filter (fun a => a != .never) with
     | [] => [.never]
     | rs => fromAtoms rs
 
-/-- `narrow_eq_condition(antecedent, nil, flow, false)` -/
-def eqNil (t : Ty) (flow : Bool) : Ty :=
+/-- `narrow_eq_condition(antecedent, right, flow, false)` where `right` is `nil` or a literal type -/
+def eqLit (t : Ty) (e : Atom) (flow : Bool) : Ty :=
   if flow then
-    let i := intersectNil t
+    let i := intersectTy t e
     if isNever i then t else i
-  else removeApply t .nil
+  else removeApply t e
 
 end Flow
